@@ -130,6 +130,21 @@ def job_twins(ctx, k):
                    lambda idx: np.asarray(O.q2R(Q[idx].copy(), ver)), lambda i: O.q2R(Q[i].copy(), ver), 'func:q2R')
     _cmp_batch(ctx, 'DCM.from_quaternion batch row = single', labels,
                lambda idx: np.asarray(DCM().from_quaternion(Q[idx].copy())), lambda i: DCM().from_quaternion(Q[i].copy()), 'func:from_quaternion')
+    # scalar-last storage: the array class against the scalar class (same order), row by row, and against the Hamilton-ordered answers
+    sub = list(range(0, len(rows), 5))
+    QS = np.roll(Q[sub], -1, axis=1)
+    lab_s = [labels[i] + ' order=S' for i in sub]
+    _cmp_batch(ctx, "QuaternionArray(order='S').to_DCM row = Quaternion(order='S').to_DCM", lab_s,
+               lambda idx: np.asarray(QuaternionArray(QS[idx].copy(), order='S').to_DCM()), lambda i: Quaternion(QS[i].copy(), order='S').to_DCM(), 'twin:order-S')
+    _cmp_batch(ctx, "QuaternionArray(order='S').to_DCM row = Hamilton-ordered to_DCM", lab_s,
+               lambda idx: np.asarray(QuaternionArray(QS[idx].copy(), order='S').to_DCM()), lambda i: Quaternion(Q[sub[i]].copy()).to_DCM(), 'twin:order-S')
+    _cmp_batch(ctx, "QuaternionArray(order='S').conjugate row = Quaternion(order='S').conjugate", lab_s,
+               lambda idx: np.asarray(QuaternionArray(QS[idx].copy(), order='S').conjugate()), lambda i: Quaternion(QS[i].copy(), order='S').conjugate, 'twin:order-S', tol=1e-15)
+    _cmp_batch(ctx, "QuaternionArray(order='S').to_angles row = Hamilton-ordered to_angles", lab_s,
+               lambda idx: np.asarray(QuaternionArray(QS[idx].copy(), order='S').to_angles()), lambda i: Quaternion(Q[sub[i]].copy()).to_angles(), 'twin:order-S')
+    _cmp_batch(ctx, "QuaternionArray(order='S') w,x,y,z rows = Quaternion(order='S') w,x,y,z", lab_s,
+               lambda idx: np.c_[QuaternionArray(QS[idx].copy(), order='S').w, QuaternionArray(QS[idx].copy(), order='S').x, QuaternionArray(QS[idx].copy(), order='S').y, QuaternionArray(QS[idx].copy(), order='S').z],
+               lambda i: np.array([Quaternion(QS[i].copy(), order='S').w, Quaternion(QS[i].copy(), order='S').x, Quaternion(QS[i].copy(), order='S').y, Quaternion(QS[i].copy(), order='S').z]), 'twin:order-S', tol=1e-15)
     ctx.sample({'rows': len(rows), 'first': labels[1], 'last': labels[-1]})
 
 
